@@ -142,4 +142,20 @@ def clauses : List O → List BOp → List BObs → List (String × Bool)
 
 def holds (ops : List BOp) (obs : List BObs) : Bool := (clauses [] ops obs).all (·.2)
 
+/-- All clauses for one observed run in which the observation goes on after a hang (the caller
+gave up waiting): as `clauses`, but a hang does not end the trace — the oracle state after it is
+the state at the call (`afterCall _ .hang`), and every later call is judged like any other. -/
+def clausesAll : List O → List BOp → List BObs → List (String × Bool)
+  | _, [], [] => []
+  | _, [], _ :: _ => [("trace-shape", false)]
+  | os, .call :: ops, res :: obs =>
+    callClauses (atCall os) res ++ clausesAll (afterCall (atCall os) res) ops obs
+  | _, .call :: _, [] => [("trace-shape", false)]
+  | os, .up k :: ops, obs => clausesAll (env os (.up k)) ops obs
+  | os, .down k :: ops, obs => clausesAll (env os (.down k)) ops obs
+  | os, .insert k :: ops, obs => clausesAll (env os (.insert k)) ops obs
+  | os, .remove k :: ops, obs => clausesAll (env os (.remove k)) ops obs
+
+def holdsAll (ops : List BOp) (obs : List BObs) : Bool := (clausesAll [] ops obs).all (·.2)
+
 end Spec.Balance
